@@ -299,6 +299,9 @@ class Kernel:
             if cb is None:
                 return None
             rets = [r for _, r in Resolver(cb).return_expr()]
+            # the accessors matrix_view() / bias_view() are the fields themselves (their bodies are instances of the C16 wrapper table)
+            if len(rets) == 1 and rets[0][0] == 'call' and rets[0][1] in ('AffFuncBase::matrix_view', 'AffFuncBase::bias_view') and len(rets[0][2]) == 1 and rets[0][2][0][0] == 'param':
+                rets = [('field', rets[0][2][0], 'mat' if rets[0][1].endswith('matrix_view') else 'bias')]
             if len(rets) == 1 and rets[0][0] == 'field' and rets[0][1][0] == 'param':
                 srcv = self.ev(src, env)
                 if isinstance(srcv, Poly) and len(srcv.t) == 1:
